@@ -266,6 +266,7 @@ async fn run_typed<K: Kind>(addr: SocketAddr, certs: &Certs, c: &Case) -> Outcom
     let hard = Instant::now() + Duration::from_secs(40);
     let mut last = Instant::now();
     let mut probed_at: Option<Instant> = None;
+    let mut control_saw_probe = false;
     while failure.is_none() && !ended.iter().all(|e| *e) && Instant::now() < hard {
         match tokio::time::timeout(Duration::from_millis(250), rx.recv()).await {
             Ok(Some((si, Ev::Item(m)))) => {
@@ -297,8 +298,28 @@ async fn run_typed<K: Kind>(addr: SocketAddr, certs: &Certs, c: &Case) -> Outcom
                 if last.elapsed() > Duration::from_secs(2) {
                     match probed_at {
                         None => {
-                            // liveness probe along the same path (same topic, same subscribers)
-                            if probe.send(K::item(b"probe-final".to_vec())).await.is_err() {
+                            // liveness probe along the same path (same topic, same subscribers),
+                            // witnessed by a fresh control subscriber with the same configuration:
+                            // "the control sees the probe, the subscriber under test does not" tells a
+                            // stuck subscriber apart from a dead path
+                            let mut cb = client.subscriber(&topic).with_decoder(K::dec());
+                            if let Some(a) = c.comp {
+                                cb = cb.with_decompression(DecompBox(c14::make(a).1));
+                            }
+                            if let Ok(mut ctl) = cb.open().await {
+                                for _ in 0..100 {
+                                    if probe.send(K::item(b"probe-final".to_vec())).await.is_err() {
+                                        break;
+                                    }
+                                    match tokio::time::timeout(Duration::from_millis(60), ctl.next()).await {
+                                        Ok(Some(Ok(m))) if K::tag(&m).starts_with(b"probe-final") => {
+                                            control_saw_probe = true;
+                                            break;
+                                        }
+                                        _ => {}
+                                    }
+                                }
+                            } else if probe.send(K::item(b"probe-final".to_vec())).await.is_err() {
                                 failure = Some(Outcome::Inconclusive("liveness probe could not be sent".into()));
                             }
                             probed_at = Some(Instant::now());
@@ -323,6 +344,12 @@ async fn run_typed<K: Kind>(addr: SocketAddr, certs: &Certs, c: &Case) -> Outcom
                 return Outcome::fail(
                     "tail-lost",
                     format!("subscriber {si}: finish() returned Ok but only {} of {} items (+ end marker) arrived, while a later probe on the same topic did arrive", got[si].len(), items.len()),
+                );
+            }
+            if control_saw_probe {
+                return Outcome::fail(
+                    "subscriber-stuck",
+                    format!("subscriber {si} stopped yielding after {} of {} items: a control subscriber opened afterwards on the same topic received the liveness probe, this one received neither it nor the rest", got[si].len(), items.len()),
                 );
             }
             return Outcome::Inconclusive(format!("subscriber {si}: neither the end marker nor the liveness probe arrived"));
@@ -438,5 +465,5 @@ pub fn replay(id: &str, case: &serde_json::Value) -> i32 {
     };
     let server = env.rt.block_on(async { TestServer::start(&env.certs) }).expect("server");
     let addr = server.addr;
-    crate::core::replay_case::<Case>(id, case, 3, |c| env.rt.block_on(run_case(addr, &env.certs, c)))
+    crate::core::replay_case::<Case>(id, case, 3, |c| match crate::core::catch(|| env.rt.block_on(run_case(addr, &env.certs, c))) { Ok(o) => o, Err(p) => Outcome::fail(format!("panic:{}", crate::core::panics::normalise(&p)), format!("panicked: {p}")) })
 }
